@@ -72,6 +72,9 @@ type c18Ev struct {
 type c18Req struct {
 	delay, pause, hdur int
 	rc, respClose      bool
+	// X18: a POST whose body (blen bytes) arrives in two parts: the head and bhead body bytes first, the rest `pause` ms
+	// later (pause < 0: the peer never sends the rest).  blen = 0: the GET request of the original scenarios.
+	blen, bhead int
 }
 type c18Conn struct {
 	startAt, closeAt int
@@ -95,7 +98,11 @@ func (s *c18Script) tokens() []string {
 	for _, c := range s.conns {
 		var rs []string
 		for _, r := range c.reqs {
-			rs = append(rs, fmt.Sprintf("%d.%d.%d.%s.%s", r.delay, r.pause, r.hdur, b2i(r.rc), b2i(r.respClose)))
+			t := fmt.Sprintf("%d.%d.%d.%s.%s", r.delay, r.pause, r.hdur, b2i(r.rc), b2i(r.respClose))
+			if r.blen > 0 {
+				t += fmt.Sprintf(".%d.%d", r.blen, r.bhead)
+			}
+			rs = append(rs, t)
 		}
 		t = append(t, fmt.Sprintf("%d:%d:%s", c.startAt, c.closeAt, strings.Join(rs, ";")))
 	}
@@ -136,6 +143,10 @@ func c18Parse(args []string) *c18Script {
 				r.hdur, _ = strconv.Atoi(f[2])
 				r.rc = f[3] == "1"
 				r.respClose = f[4] == "1"
+				if len(f) >= 7 {
+					r.blen, _ = strconv.Atoi(f[5])
+					r.bhead, _ = strconv.Atoi(f[6])
+				}
 				c.reqs = append(c.reqs, r)
 			}
 		}
@@ -161,6 +172,7 @@ func (r *c18Run) rec(e c18Ev) {
 // c18TrBase splits the transport token "std+150" into the transport and the duration in ms the OnAccept hook
 // takes (a connection that is accepted but has not reached its handler yet when Shutdown is called).
 func c18TrBase(tr string) (string, int) {
+	tr = strings.TrimSuffix(tr, "!s") // X18: "!s" = StreamRequestBody (the handler is entered once the head is complete and reads the body itself)
 	if i := strings.IndexByte(tr, '+'); i >= 0 {
 		d, _ := strconv.Atoi(tr[i+1:])
 		return tr[:i], d
@@ -217,6 +229,7 @@ func c18Scenario(s *c18Script) []string {
 		server.WithIdleTimeout(60*time.Second),
 		server.WithKeepAliveTimeout(60*time.Second),
 		server.WithReadTimeout(60*time.Second),
+		server.WithStreamBody(strings.HasSuffix(s.tr, "!s")),
 		server.WithOnAccept(func(c net.Conn) context.Context {
 			r.rec(c18Ev{kind: "A", addr: c.RemoteAddr().String()})
 			if _, d := c18TrBase(s.tr); d > 0 {
@@ -230,7 +243,14 @@ func c18Scenario(s *c18Script) []string {
 		k, _ := strconv.Atoi(string(ctx.Request.Header.Peek("X-K")))
 		d, _ := strconv.Atoi(string(ctx.Request.Header.Peek("X-D")))
 		rcl := string(ctx.Request.Header.Peek("X-RC")) == "1"
+		bl, _ := strconv.Atoi(string(ctx.Request.Header.Peek("X-BL")))
 		r.rec(c18Ev{kind: "Q", client: ci, k: k, f1: c18bi(ctx.Request.Header.ConnectionClose())})
+		if bl > 0 && !bytes.Equal(ctx.Request.Body(), c18ReqBody(bl)) {
+			// the handler did not get the body the client sent: answered, but not with the expected response
+			ctx.Response.SetStatusCode(500)
+			r.rec(c18Ev{kind: "X", client: ci, k: k, f1: c18bi(rcl)})
+			return
+		}
 		if d > 0 {
 			time.Sleep(time.Duration(d) * time.Millisecond)
 		}
@@ -441,10 +461,23 @@ func c18Scenario(s *c18Script) []string {
 				out = append(out, fmt.Sprintf("R,%d,%d,%d,%d,%s", c, e.k, e.f1, e.f2, t))
 			case "F":
 				out = append(out, fmt.Sprintf("F,%d,%d,%s", c, e.k, t))
+			case "P":
+				out = append(out, fmt.Sprintf("P,%d,%d,%d,%d,%s", c, e.k, e.f1, e.f2, t))
+			case "PZ":
+				out = append(out, fmt.Sprintf("PZ,%d,%d,%s", c, e.k, t))
 			}
 		}
 	}
 	return out
+}
+
+// c18ReqBody is the request body of n bytes the X18 scenarios send.
+func c18ReqBody(n int) []byte {
+	b := make([]byte, n)
+	for i := range b {
+		b[i] = byte('A' + i%19)
+	}
+	return b
 }
 
 func c18bi(b bool) int {
@@ -532,15 +565,42 @@ func c18Client(r *c18Run, s *c18Script, i int, addr string, start time.Time, end
 			break
 		}
 		var b bytes.Buffer
-		fmt.Fprintf(&b, "GET /r HTTP/1.1\r\nHost: x\r\nX-C: %d\r\nX-K: %d\r\nX-D: %d\r\nX-RC: %s\r\n", i, k, q.hdur, b2i(q.respClose))
+		meth := "GET"
+		if q.blen > 0 {
+			meth = "POST"
+		}
+		fmt.Fprintf(&b, "%s /r HTTP/1.1\r\nHost: x\r\nX-C: %d\r\nX-K: %d\r\nX-D: %d\r\nX-RC: %s\r\n", meth, i, k, q.hdur, b2i(q.respClose))
 		if q.rc {
 			b.WriteString("Connection: close\r\n")
+		}
+		if q.blen > 0 {
+			fmt.Fprintf(&b, "X-BL: %d\r\nContent-Length: %d\r\n", q.blen, q.blen)
 		}
 		b.WriteString("\r\n")
 		raw := b.Bytes()
 		conn.SetWriteDeadline(time.Now().Add(2 * time.Second))
 		var werr error
-		if q.pause > 0 {
+		if q.blen > 0 {
+			// X18: the request head and the first bhead body bytes now, the rest later (or never)
+			body := c18ReqBody(q.blen)
+			_, werr = conn.Write(append(append([]byte(nil), raw...), body[:q.bhead]...))
+			if werr == nil {
+				r.rec(c18Ev{kind: "P", client: i, k: k, f1: len(raw) + q.bhead, f2: len(raw) + q.blen})
+				if q.pause < 0 {
+					// the peer never sends the rest: watch the connection until the scenario ends
+					if !waitEOF(-1) {
+						closeConn()
+					}
+					return
+				}
+				time.Sleep(time.Duration(q.pause) * time.Millisecond)
+				conn.SetWriteDeadline(time.Now().Add(2 * time.Second))
+				_, werr = conn.Write(body[q.bhead:])
+				if werr == nil {
+					r.rec(c18Ev{kind: "PZ", client: i, k: k})
+				}
+			}
+		} else if q.pause > 0 {
 			half := len(raw) / 2
 			_, werr = conn.Write(raw[:half])
 			if werr == nil {
@@ -805,7 +865,7 @@ func c18Gen(rng *Rng, tr string, malformed bool) *c18Script {
 	for i := 0; i < nc; i++ {
 		c := c18Conn{startAt: rng.Intn(40), closeAt: -1}
 		near := func() int { return rng.Intn(25) } // small offsets around the shutdown instant
-		kind := rng.Intn(8)
+		kind := rng.Intn(11)
 		if long {
 			kind = []int{0, 3, 6, 7, 0, 3}[rng.Intn(6)]
 		}
@@ -837,6 +897,36 @@ func c18Gen(rng *Rng, tr string, malformed bool) *c18Script {
 				c.reqs = append(c.reqs, c18Req{delay: rng.Intn(s.shutAt/n + 5), hdur: rng.Intn(12),
 					rc: k == n-1 && rng.Intn(3) == 0, respClose: rng.Intn(9) == 0})
 			}
+		case 8, 9: // X18: request head (+ part of the body) received before the shutdown call, the rest still arriving
+			sendAt := s.shutAt - 18 - rng.Intn(25)
+			bl := 1 + rng.Intn(6000)
+			q := c18Req{delay: c18Max0(sendAt - c.startAt), hdur: rng.Intn(15), blen: bl, bhead: rng.Intn(bl)}
+			switch rng.Intn(5) {
+			case 0: // the peer never sends the rest
+				q.pause = -1
+			case 1: // the rest arrives only after the deadline
+				q.pause = s.shutAt - sendAt + s.W + 20 + rng.Intn(60)
+			default: // the rest arrives while Shutdown is waiting
+				q.pause = s.shutAt - sendAt + near() + rng.Intn(s.W/2+1)
+			}
+			if strings.HasSuffix(tr, "!s") && rng.Intn(2) == 0 {
+				// StreamRequestBody and more than the 8 KiB the server reads ahead: the handler is entered before the call and
+				// is reading the body itself when Shutdown begins (the rest always arrives: a handler that waits for ever for
+				// its peer is not a request the property promises an answer to)
+				q.blen = 8300 + rng.Intn(6000)
+				q.bhead = 8200 + rng.Intn(q.blen-8200)
+				if q.pause < 0 {
+					q.pause = s.shutAt - sendAt + near()
+				}
+			}
+			c.reqs = []c18Req{q}
+			if rng.Intn(3) == 0 { // after a first complete exchange on the same connection
+				c.reqs = []c18Req{{delay: rng.Intn(8), hdur: rng.Intn(3)}, q}
+				c.reqs[1].delay = c18Max0(sendAt - c.startAt - 10)
+			}
+		case 10: // X18 control: body in two parts, complete before the shutdown call
+			bl := 2 + rng.Intn(3000)
+			c.reqs = []c18Req{{delay: rng.Intn(10), pause: 1 + rng.Intn(10), hdur: rng.Intn(5), blen: bl, bhead: rng.Intn(bl)}}
 		default: // new connection around / after the shutdown (probe, maybe with a request)
 			c.startAt = s.shutAt - 10 + rng.Intn(wspan+60)
 			if rng.Bool() {
@@ -849,6 +939,11 @@ func c18Gen(rng *Rng, tr string, malformed bool) *c18Script {
 			// hostile peers: garbage instead of a request, or a request cut short by a close
 			if rng.Bool() {
 				c.reqs = append(c.reqs[:rng.Intn(len(c.reqs)+1)], c18Req{delay: rng.Intn(s.shutAt), hdur: -1})
+				for k := range c.reqs {
+					if c.reqs[k].pause < 0 { // a request that is never completed ends the client's script
+						c.reqs[k].pause = 5
+					}
+				}
 			} else {
 				c.reqs = nil
 				c.closeAt = c.startAt + rng.Intn(s.shutAt+s.W)
@@ -904,6 +999,24 @@ func genC18(tier string, rng *Rng) {
 				conns: []c18Conn{{startAt: 5, closeAt: -1, reqs: []c18Req{{delay: 5, hdur: 1}}}}},
 		)
 	}
+	// X18: requests whose head has arrived and whose body is still arriving when Shutdown is called: several connections,
+	// the rest arriving during the wait / never / after the deadline; next to a busy and an idle connection
+	// ("!s": StreamRequestBody - the handler of the 9000-byte request is already reading the body)
+	for _, tr := range []string{"std", "np", "std!s", "np!s"} {
+		scripts = append(scripts,
+			&c18Script{tr: tr, W: 400, shutAt: 70, second: 0, hooks: []int{0},
+				conns: []c18Conn{
+					{startAt: 5, closeAt: -1, reqs: []c18Req{{delay: 30, pause: 80, hdur: 5, blen: 4000, bhead: 100}}},
+					{startAt: 8, closeAt: -1, reqs: []c18Req{{delay: 25, pause: 120, hdur: 10, blen: 300, bhead: 0}}},
+					{startAt: 10, closeAt: -1, reqs: []c18Req{{delay: 20, pause: 60, hdur: 0, blen: 9000, bhead: 8999}}}}},
+			&c18Script{tr: tr, W: 250, shutAt: 70, second: 1,
+				conns: []c18Conn{
+					{startAt: 5, closeAt: -1, reqs: []c18Req{{delay: 30, pause: -1, hdur: 5, blen: 500, bhead: 10}}},
+					{startAt: 6, closeAt: -1, reqs: []c18Req{{delay: 5, hdur: 1}, {delay: 25, pause: 70, hdur: 3, blen: 2000, bhead: 1000}}},
+					{startAt: 7, closeAt: -1, reqs: []c18Req{{delay: 40, hdur: 60}}},
+					{startAt: 9, closeAt: -1, reqs: []c18Req{{delay: 5, hdur: 1}}}}},
+		)
+	}
 	// a connection still inside a slow OnAccept hook when Shutdown is called (request already sent)
 	scripts = append(scripts,
 		&c18Script{tr: "std+150", W: 500, shutAt: 60, second: 0,
@@ -918,6 +1031,9 @@ func genC18(tier string, rng *Rng) {
 		} else if i%8 == 5 {
 			tr = "std+" + strconv.Itoa(40+rng.Intn(120))
 		}
+		if i%5 == 1 && !strings.Contains(tr, "+") {
+			tr += "!s" // X18: StreamRequestBody
+		}
 		scripts = append(scripts, c18Gen(rng, tr, i%7 == 6))
 	}
 	// the two directed probes first (they are cheap and must not be lost to a time budget)
@@ -925,6 +1041,7 @@ func genC18(tier string, rng *Rng) {
 		runOp([]string{"c18race", w})
 	}
 	genC18Sig(tier)
+	genC18Spin(tier, rng)
 	if tier == "thorough" {
 		runOp([]string{"c18conc", "400"})
 	} else {
